@@ -1,7 +1,17 @@
 //@ unit unmap_json
 //@ serves C15
-//@ must_verify JsonConverter::convert_json_val Number::as_i64 Number::as_f64 Number::is_u64 lemma_json_object_fields_sorted
+//@ must_verify JsonConverter::convert_json_val JsonConverter::import Number::as_i64 Number::as_f64 Number::is_u64 lemma_json_object_fields_sorted
 // C15 — included data files decode to the data they contain: the ucg-owned mapping serde_json::Value -> Val.
+// Verified text: JsonConverter::convert_json_val and `impl Importer for JsonConverter`::import (convert/json.rs);
+// serde_json's `enum Value`, `struct Number`, `enum N`, Number::{as_i64,is_u64,as_f64} extracted from the pinned
+// dependency and verified; `Map` is a model (prelude/unmap_json_models.rs): entries in iteration order, which for
+// the pinned build (no `preserve_order`) is ASCENDING KEY order, not document order (lemma_json_object_fields_sorted).
+// Contract: unmap_post(jview(v), r): data(result) == jview(v) when every integer of the document fits an i64,
+// otherwise Err. Genuine defect found by the `Int` clause on the pinned tree: a JSON integer in (i64::MAX, u64::MAX]
+// (serde_json PosInt) was silently bound as a rounded Float (`18446744073709551615` -> 1.8446744073709552e19).
+// Fixed by /scratch/patches/unmap_json.patch (such a number is an IncludeError). This unit is written against the
+// FIXED text; the pinned behaviour is the seeded mutant `big_u64_to_float`. On the unfixed tree the obligation
+// convert_json_val fails (VIOLATION) at the end of the function body.
 //@ include prelude/head.rs
 use std::rc::Rc;
 use vstd::std_specs::convert::*;
@@ -91,6 +101,20 @@ pub open spec fn obj_inv(fs: Vec<(Rc<str>, Rc<Val>)>, m: serde_json::Map<String,
                         it.seq().len() == m@.len(),
                         forall|k: int| 0 <= k < m@.len() ==> *(#[trigger] it.seq()[k]) == m@[k],
                         obj_inv(fs, *m, it.index@),
+//@   >>>
+//@ end
+
+// The importer: parse, then map. A document the parser rejects is an error; otherwise the verdict of the mapper
+// on exactly the parsed value.
+//@ extract src/convert/json.rs :: impl Importer for JsonConverter :: fn import
+//@   impl_header impl JsonConverter
+//@   mutant parse_error_swallowed "serde_json::from_slice(bytes)?" => "match serde_json::from_slice(bytes) { Ok(v) => v, Err(_) => serde_json::Value::Null }" expect import
+//@   ret r
+//@   sig <<<
+        ensures match json_parse(bytes@) {
+            None => r is Err,
+            Some(doc) => match r { Ok(val) => unmap_post(jview(doc), Ok::<Val, VBoxDynError>(*val)), Err(e) => unmap_post(jview(doc), Err::<Val, VBoxDynError>(e)) },
+        }
 //@   >>>
 //@ end
 
